@@ -27,6 +27,9 @@ Definition mv3 (d1 d2 d3 v1 v2 v3 : R) : R * R * R :=
 Definition tf_ok (D : R -> Prop) (g ginv g1 g2 g3 : R -> R) : Prop :=
   forall x, D x -> is_derive g x (g1 x) /\ is_derive g1 x (g2 x) /\ is_derive g2 x (g3 x) /\ g1 x <> 0 /\ ginv (g x) = x.
 
+(* the open interval on which the transforms with domain (-1, 1) are admissible *)
+Definition Dom (x : R) : Prop := -1 < x < 1.
+
 (* ------------------------------------------------------------------ solve_ode_ivp with a transform
    x_span  ->  transform.transform(x_span);
    y0      ->  hstack(y0[0], scipy.linalg.solve(M(x_span[0]), y0[1:]))  with M = _derivative_transformation_matrix(.., order-1);
